@@ -42,7 +42,7 @@ def _on_py_start(code, offset):
     if _steps["active"]:
         _steps["n"] += 1
         if _steps["n"] > STEP_LIMIT:
-            _steps["active"] = False
+            _steps["n"] = 0
             raise StepBudgetExceeded()
 
 
@@ -114,12 +114,16 @@ def install_step_monitor(prefix=None):
 
 
 def cut(fn, *args, expect=(), **kwargs):
-    """Call into the code under test.
+    """Call into the code under test (re-entrant).
 
     Returns the result; an exception of a type listed in `expect` comes back as
-    Raised(exc); the step budget being exceeded or any other exception is a violation
-    (the caller decides of what by catching and re-labelling if it needs to)."""
+    Raised(exc); a trace-specification violation raised from the database boundary, the
+    step budget being exceeded or any other exception is a violation."""
+    from vt.monitor.db import TraceViolation
+
+    saved = _steps["n"]
     _steps["n"] = 0
+    _steps["depth"] = _steps.get("depth", 0) + 1
     _steps["active"] = True
     try:
         return fn(*args, **kwargs)
@@ -130,6 +134,8 @@ def cut(fn, *args, expect=(), **kwargs):
         )
     except Violation:
         raise
+    except TraceViolation as tv:
+        raise Violation(tv.monitor, tv.detail)
     except expect as e:  # noqa
         return Raised(e)
     except Exception as e:
@@ -138,10 +144,16 @@ def cut(fn, *args, expect=(), **kwargs):
             "%s raised %s: %s" % (_name(fn), type(e).__name__, str(e)[:300]),
         ) from e
     finally:
-        _steps["active"] = False
-        _steps["total"] += _steps["n"]
+        _steps["depth"] -= 1
+        _steps["active"] = _steps["depth"] > 0
+        if _steps["depth"] == 0:
+            _steps["total"] += _steps["n"]
+        _steps["total"] += 0 if _steps["depth"] == 0 else _steps["n"]
         if _steps["n"] > _steps["max"]:
             _steps["max"] = _steps["n"]
+        # the enclosing guarded call keeps its own count (the budget is per API call,
+        # harness code between nested calls is not instrumented anyway)
+        _steps["n"] = saved
 
 
 def _name(fn):
